@@ -4,7 +4,7 @@ E1 on the real engine: (1) run_function_on_graph on the DAG family G_n with
 bytecode-level preemption in the node-processing code; (2) uberjob.run on every
 small plan over all edge kinds with every pop order the queue permits.
 """
-from .. import e1run, engine, planh
+from .. import e1prop, engine, planh
 
 PROP = "C01"
 ENGINE = "vlib.engine:EngineHarness"
@@ -28,10 +28,15 @@ def explorations(tier):
         ex.append(("engine G3 W=1 sync b<=2, all random draws", ENGINE, list(EC([3], [1], scheds)), {"preempt": 2}))
         ex.append(("engine G3 W=2 sync b<=2", ENGINE, list(EC([3], [2], det)), {"preempt": 2}))
         ex.append(("engine G3 W=2 random sync b<=1, all draws", ENGINE, list(EC([3], [2], ["random"])), {"preempt": 1}))
-        ex.append(("engine G3 W=3 sync b<=1", ENGINE, list(EC([3], [3], scheds)), {"preempt": 1, "random": 1}))
+        ex.append(("engine G3 W=3 sync b<=1", ENGINE, list(EC([3], [3], det)), {"preempt": 1}))
         ex.append(("engine G3 W=2 bytecode b<=1", ENGINE, list(_with(EC([3], [2], scheds), bc=True)), {"preempt": 1, "random": 1}))
         ex.append(("engine G4-join W=2 bytecode b<=1", ENGINE,
                    list(_with(EC([4], [2], ["default"], only_join=True, variants=False), bc=True)), {"preempt": 1}))
+        ex.append(("engine curated 5-node join shapes W=2 bytecode b<=1", ENGINE,
+                   list(_with(engine.curated_configs([2], ["cheap", "default", "random"]), bc=True)), {"preempt": 1, "random": 1}))
+        ex.append(("engine join-then-join (5 nodes) W=2 bytecode b<=2", ENGINE,
+                   list(_with(engine.curated_configs([2], ["cheap", "default", "random"], names=["join-then-join"]), bc=True)),
+                   {"preempt": 2, "random": 1}))
         ex.append(("api plans n=3, W=1, every pop order", PLAN,
                    [{"n": 3, "edges": e, "output": [0, 1, 2], "W": 1, "sched": "random"} for e in planh.plan_configs(3)],
                    {"preempt": 0}))
@@ -46,6 +51,10 @@ def explorations(tier):
         ex.append(("engine G3 W=3 bytecode b<=1", ENGINE, list(_with(EC([3], [3], det), bc=True)), {"preempt": 1}))
         ex.append(("engine G4-join W=2 bytecode b<=2", ENGINE,
                    list(_with(EC([4], [2], ["default", "random"], only_join=True), bc=True)), {"preempt": 2, "random": 1}))
+        ex.append(("engine curated 5-node join shapes W=2 bytecode b<=2", ENGINE,
+                   list(_with(engine.curated_configs([2], ["cheap", "default", "random"]), bc=True)), {"preempt": 2, "random": 1}))
+        ex.append(("engine curated 5-node join shapes W=3 bytecode b<=1", ENGINE,
+                   list(_with(engine.curated_configs([3], ["default"]), bc=True)), {"preempt": 1}))
         ex.append(("api plans n=3: W=1 every pop order; W=2 b<=1", PLAN,
                    [{"n": 3, "edges": e, "output": [0, 1, 2], "W": w, "sched": sc}
                     for e in planh.plan_configs(3) for w, sc in ((1, "random"), (2, "default"))],
@@ -71,45 +80,9 @@ def hub_cfgs(Ws):
     return out
 
 
-def run(tier, prop=PROP):
-    engine.install_engine_bc()
-    aggs, per = [], []
-    viols, notes = [], []
-    for name, factory, cfgs, budget in explorations(tier):
-        a = e1run.explore(factory, cfgs, budget)
-        v, nt = e1run.to_violations(prop, a, factory, budget)
-        viols += v
-        notes += nt
-        per.append({"exploration": name, "configs": a["configs"], "executions": a["executions"],
-                    "budget": budget, "statuses": a["statuses"], "distinct_outcomes": a["distinct_outcomes"],
-                    "max_points_per_execution": a["max_points"], "capped": a["capped"]})
-        aggs.append(a)
-    tot = e1run.merge(aggs)
-    cov = {
-        "states": tot["tree_nodes"],
-        "transitions": tot["points"],
-        "traces_validated_against_impl": tot["executions"],
-        "executions": tot["executions"],
-        "configurations": tot["configs"],
-        "distinct_outcomes": tot["distinct_outcomes"],
-        "configs_with_multiple_outcomes": tot["configs_with_multiple_outcomes"],
-        "explorations": per,
-        "samples": tot["samples"][:3],
-        "exhaustive": not tot["capped"],
-        "rule": "states = distinct nodes of the schedule tree (choice prefixes); every execution runs the real engine code, so every explored trace is an implementation trace",
-    }
-    return {"violations": viols, "notes": notes, "coverage": cov, "level": "model_checking",
-            "assumptions": ASSUME}
-
-
-ASSUME = [
-    "one CPython 3.12 bytecode on built-in objects is atomic (GIL build)",
-    "the shim threading layer (Lock/Condition/Thread/Event) is faithful; bound by litmus + free-running conformance (C07 check)",
-    "instructions that touch only frame-local state commute with other threads and are not scheduling points",
-]
+def run(tier):
+    return e1prop.run(PROP, explorations(tier))
 
 
 def replay(rep):
-    engine.install_engine_bc()
-    msgs = e1run.replay(rep)
-    return [m for t, m in msgs if t == PROP]
+    return e1prop.replay(PROP, rep)
